@@ -27,8 +27,10 @@ for pid in props:
             "evidence_file": "/verif/evidence/%s.json" % pid,
             "replay_cmd_template": "./check %s --replay {path}" % pid,
             "engine": "gosmt",
-            "level_claimed": {"category": "model_checking", "text": c.get("level_text", ""), "design_ref": c.get("design_ref", "DESIGN.md section 3, " + pid)},
-            "level_note": c.get("level_note", ""),
+            "level_claimed": {"category": "model_checking",
+                              "text": c.get("level_text", "bounded symbolic execution of the real code; the solver decides every branch and assertion for all inputs inside: " + c.get("bounds", {}).get("quick", "")),
+                              "design_ref": c.get("design_ref", "DESIGN.md section 3, " + pid)},
+            "level_note": c.get("level_note", "trusted base: the gosmt encoder (validated per run by native replay of sampled paths and of every counterexample), z3, the stubs and models of DESIGN.md section 2.5; assumptions: " + "; ".join(c.get("assumptions", []))),
             "technique": c.get("technique", "bounded symbolic execution of go/ssa + SMT (z3, bit-vectors)"),
         })
     else:
